@@ -19,6 +19,7 @@ SNAP_ROWS = [
     ('comment', None, '# a comment'), ('comment', None, '#'), ('empty', None, ''), ('blank', None, '   '), ('blank', None, '\t'),
     ('short', None, '0'), ('short', None, '0{d}1'),
     ('trailing-comment', ['0', '1', '3'], '0{d}1{d}3 # seen'), ('trailing-comment', ['1', '2', '3'], '1{d}2{d}3#x'),
+    ('trailing-comment', ['0', '2', '2'], '0{d}2{d}2{w}# after the delimiter'),
     ('padded', ['0', '2', '3'], '  0{d}2{d}3  '), ('extra-columns', ['0', '2', '1', '3'], '0{d}2{d}1{d}3{d}9{d}9'),
 ]
 INT_ROWS = [
@@ -26,17 +27,18 @@ INT_ROWS = [
     ('minus', ['0', '1', '-', '3'], None), ('minus', ['1', '2', '-', '4'], None),
     ('comment', None, '# a comment'), ('empty', None, ''), ('blank', None, '  \t'),
     ('short', None, '0{d}1{d}+'), ('short', None, '0{d}1'), ('extra-columns', None, '0{d}1{d}+{d}2{d}9'),
-    ('trailing-comment', ['0', '2', '+', '2'], '0{d}2{d}+{d}2 # note'), ('padded', ['1', '2', '+', '4'], ' 1{d}2{d}+{d}4 '),
+    ('trailing-comment', ['0', '2', '+', '2'], '0{d}2{d}+{d}2 # note'), ('trailing-comment', ['0', '2', '+', '3'], '0{d}2{d}+{d}3{w}# after the delimiter'), ('padded', ['1', '2', '+', '4'], ' 1{d}2{d}+{d}4 '),
     ('comment', None, '#0{d}1{d}+{d}0'),
 ]
-DELIMS = [None, ',', '\t']
+DELIMS = [None, ' ', ',', '\t']
 
 
 def render(row, d):
     kind, fields, raw = row
     dd = ' ' if d is None else d
     if raw is not None:
-        return raw.replace('{d}', dd)
+        # {w}: the delimiter itself when it is whitespace (a comment set off by the delimiter), else a blank
+        return raw.replace('{d}', dd).replace('{w}', dd if dd in (' ', '\t') else ' ')
     return dd.join(fields)
 
 
@@ -283,7 +285,7 @@ def run(tier, seed):
                        'rows whose clean parse is itself rejected (non-chronological per pair) must be rejected identically with noise']
     return rep.finish(known, 'all sequences of <= %d lines over the row grammar (valid 3-/4-column rows, comment-only, empty, blank, 1- and '
                              '2-field rows, trailing comments, padded rows, extra columns; for the interaction reader + and - rows, 3- and '
-                             '5-field rows) x delimiter in {None, ",", TAB} x with/without newline terminators x directed/undirected: '
+                             '5-field rows) x delimiter in {None, " ", ",", TAB} x with/without newline terminators x directed/undirected: '
                              'graph(noisy lines) observably == graph(valid rows alone); unconvertible fields raise TypeError; '
                              'compact_timeslot on every subset of three 8-instant windows in every rotation == rank '
                              'bijection; read_*(keys=True) on every clean file of <= 3 rows == graph of the ranked rows; distinct: every '
